@@ -57,6 +57,9 @@ def obligations(ctx):
             obs.append(c01.prod_ob(t, 1, nn, avx, 2, 3, asl=nn + 2, tmpa=True, tag="fft64/"))
             obs.append(c01.prod_ob(t, 2, nn, avx, 2, 2, asl=nn + 3, nrows=2, ncols=2, tag="fft64/"))
             obs.append(c01.prod_ob(t, 3, nn, avx, 3, 3, nrows=3, ncols=3, tag="fft64/"))
+    # aliasing choices inside a pipeline: the small product written over its first / second operand
+    for (nn, avx, pal) in ((8, 1, 2), (8, 0, 1), (4, 1, 2)):
+        obs.append(c01.prod_ob(t, 0, nn, avx, palias=pal, tag="fft64/"))
     # matrix pipelines whose output is truncated to an odd number of columns below the matrix width (the column-pair layout of the prepared matrix is the seam)
     for avx in (0, 1):
         obs.append(c01.prod_ob(t, 2, 8, avx, 3, 2, nrows=2, ncols=4, tag="fft64/"))
